@@ -50,3 +50,12 @@ Theorem C08_named_sources_are_producers : forall g p sched evs w i u pre l o v,
     exists res, In res (shared_results g (fst r) par) /\ r_status res = SPass /\ n_first_worker (nd g (r_node res)) = Some v.
 Proof. exact named_sources_are_producers. Qed.
 Print Assumptions C08_named_sources_are_producers.
+
+(* "with that worker's connection parameters": the remote session a worker is handed (worker.py: get_session, a cache shared
+   by all workers) was opened to that worker's own address - for every sequence of calls by any workers and any outcomes of
+   the health check of cached sessions *)
+From I2N Require Import Model.Session Proofs.SessionProofs.
+Theorem C08_session_goes_to_the_callers_address : forall ops,
+  map (fun x => snd (fst x)) (run_sessions empty_cache ops) = map fst ops.
+Proof. intros ops. apply sessions_pointwise. exact SInvC_empty. Qed.
+Print Assumptions C08_session_goes_to_the_callers_address.
